@@ -78,6 +78,219 @@ theorem payloadThrough_some (s : ProcState) (p : AnyPayload) : (t : Rel) → s.p
   | .transfer oid d t, h => by unfold payloadThrough; simp only [h]
   | .select a b c d e f g i j, h => by unfold payloadThrough; simp only [h]
 
+theorem payloadThrough_temp (s : ProcState) (n : Nat) : (t : Rel) →
+    payloadThrough { s with nextTemp := n } t = payloadThrough s t
+  | .leaf .. => rfl
+  | .unary .. => rfl
+  | .binary .. => rfl
+  | .mat oid nm t => by
+    unfold payloadThrough
+    rw [payloadThrough_temp s n t]; rfl
+  | .transfer oid d t => by
+    unfold payloadThrough
+    rw [payloadThrough_temp s n t]; rfl
+  | .select a b c d e f g i t => by
+    unfold payloadThrough
+    rw [payloadThrough_temp s n t]; rfl
+
+theorem payloadOf_marker_isSome (s : ProcState) (x : Rel) (hx : x.procFlag = true) (hl : ∀ a b c d e f g i, x ≠ .leaf a b c d e f g i) :
+    (s.payloadOf x).isSome = ((s.st.payload x.oid).isSome || (s.sq.payload x.oid).isSome) := by
+  cases x with
+  | leaf a b c d e f g i => exact absurd rfl (hl a b c d e f g i)
+  | unary => simp [Rel.procFlag] at hx
+  | binary => simp [Rel.procFlag] at hx
+  | mat oid n t => simp only [ProcState.payloadOf, Rel.oid]; cases s.st.payload oid <;> simp
+  | transfer oid d t => simp only [ProcState.payloadOf, Rel.oid]; cases s.st.payload oid <;> simp
+  | select oid a1 a2 a3 a4 a5 a6 a7 t => simp only [ProcState.payloadOf, Rel.oid]; cases s.st.payload oid <;> simp
+
+theorem payloadOf_mono {s s' : ProcState} (hsq : s'.sq = s.sq) (hm : PayMono s.st s'.st) (x : Rel)
+    (h : (s.payloadOf x).isSome = true) : (s'.payloadOf x).isSome = true := by
+  have key : ∀ y : Rel, y.procFlag = true → (∀ a b c d e f g i, y ≠ .leaf a b c d e f g i) →
+      (s.payloadOf y).isSome = true → (s'.payloadOf y).isSome = true := by
+    intro y hy hl hh
+    rw [payloadOf_marker_isSome s y hy hl] at hh
+    rw [payloadOf_marker_isSome s' y hy hl, hsq]
+    simp only [Bool.or_eq_true] at hh ⊢
+    exact hh.imp (hm _) id
+  cases x with
+  | leaf oid le cols nm mn mx pl ms =>
+    simp only [ProcState.payloadOf] at h ⊢
+    rw [hsq]; exact h
+  | unary => simp [ProcState.payloadOf] at h
+  | binary => simp [ProcState.payloadOf] at h
+  | mat oid n t => exact key _ rfl (fun _ _ _ _ _ _ _ _ hh => by cases hh) h
+  | transfer oid d t => exact key _ rfl (fun _ _ _ _ _ _ _ _ hh => by cases hh) h
+  | select oid a1 a2 a3 a4 a5 a6 a7 t => exact key _ rfl (fun _ _ _ _ _ _ _ _ hh => by cases hh) h
+
+theorem payloadThrough_mono {s s' : ProcState} (hsq : s'.sq = s.sq) (hm : PayMono s.st s'.st) :
+    (x : Rel) → (payloadThrough s x).isSome = true → (payloadThrough s' x).isSome = true
+  | .leaf a b c d e f g i, h => by
+    simp only [payloadThrough] at h ⊢
+    exact payloadOf_mono hsq hm _ h
+  | .unary .., h => by simp [payloadThrough, ProcState.payloadOf] at h
+  | .binary .., h => by simp [payloadThrough, ProcState.payloadOf] at h
+  | .mat oid n t, h => by
+    unfold payloadThrough at h ⊢
+    cases hp' : s'.payloadOf (Rel.mat oid n t) with
+    | some q => rfl
+    | none =>
+      cases hp : s.payloadOf (Rel.mat oid n t) with
+      | some q =>
+        have := payloadOf_mono hsq hm (Rel.mat oid n t) (by simp [hp])
+        simp [hp'] at this
+      | none =>
+        simp only [hp] at h
+        exact payloadThrough_mono hsq hm t h
+  | .transfer oid d t, h => by
+    unfold payloadThrough at h ⊢
+    cases hp' : s'.payloadOf (Rel.transfer oid d t) with
+    | some q => rfl
+    | none =>
+      cases hp : s.payloadOf (Rel.transfer oid d t) with
+      | some q =>
+        have := payloadOf_mono hsq hm (Rel.transfer oid d t) (by simp [hp])
+        simp [hp'] at this
+      | none =>
+        simp only [hp] at h
+        exact payloadThrough_mono hsq hm t h
+  | .select oid a1 a2 a3 a4 a5 a6 a7 t, h => by
+    unfold payloadThrough at h ⊢
+    cases hp' : s'.payloadOf (Rel.select oid a1 a2 a3 a4 a5 a6 a7 t) with
+    | some q => rfl
+    | none =>
+      cases hp : s.payloadOf (Rel.select oid a1 a2 a3 a4 a5 a6 a7 t) with
+      | some q =>
+        have := payloadOf_mono hsq hm (Rel.select oid a1 a2 a3 a4 a5 a6 a7 t) (by simp [hp])
+        simp [hp'] at this
+      | none =>
+        simp only [hp] at h
+        exact payloadThrough_mono hsq hm t h
+
+/-- A payload found by looking through payload-less markers of an executable tree stands for the tree's rows. -/
+theorem payloadThrough_rows (σ : Leaves) (reg : Nat → Option (List Row)) (s : ProcState) (hs : StoreOK σ reg s.st) :
+    (x : Rel) → x.sqFree s.sq → x.RegOK σ reg → x.IterOKs s.st → (p : AnyPayload) → payloadThrough s x = some p →
+    ∃ it, p = .iter it ∧ ItOK it ∧ it.rows σ = .ok (sem σ x)
+  | .leaf oid le cols nm mn mx pl ms, hq, _, _, p, h => by
+    simp only [payloadThrough] at h
+    rw [payloadOf_free s (Rel.leaf oid le cols nm mn mx pl ms) hq] at h
+    cases pl with
+    | false => simp at h
+    | true =>
+      simp only [Bool.not_true, Bool.false_eq_true, if_false, Option.some.injEq] at h
+      exact ⟨.leafRef oid, h.symm, trivial, rfl⟩
+  | .unary .., _, _, _, p, h => by simp [payloadThrough, ProcState.payloadOf] at h
+  | .binary .., _, _, _, p, h => by simp [payloadThrough, ProcState.payloadOf] at h
+  | .mat oid n t, hq, hreg, hio, p, h => by
+    unfold payloadThrough at h
+    rw [payloadOf_free s (Rel.mat oid n t) hq.1] at h
+    simp only [Rel.oid] at h
+    cases hp : s.st.payload oid with
+    | some it =>
+      simp only [hp, Option.map_some, Option.some.injEq] at h
+      obtain ⟨hi, rows, hr, hrows⟩ := hs oid it hp
+      rw [hreg.1] at hr
+      injection hr with hr
+      exact ⟨it, h.symm, hi, by rw [hrows, ← hr]; rfl⟩
+    | none =>
+      simp only [hp, Option.map_none] at h
+      have hio' : t.IterOKs s.st := by
+        rcases hio with hh | hh
+        · rw [hp] at hh; cases hh
+        · exact hh
+      obtain ⟨it, a, b, c⟩ := payloadThrough_rows σ reg s hs t hq.2 hreg.2 hio' p h
+      exact ⟨it, a, b, by simpa [sem] using c⟩
+  | .transfer oid d t, hq, hreg, hio, p, h => by
+    unfold payloadThrough at h
+    rw [payloadOf_free s (Rel.transfer oid d t) hq.1] at h
+    simp only [Rel.oid] at h
+    cases hp : s.st.payload oid with
+    | some it =>
+      simp only [hp, Option.map_some, Option.some.injEq] at h
+      obtain ⟨hi, rows, hr, hrows⟩ := hs oid it hp
+      rw [hreg.1] at hr
+      injection hr with hr
+      exact ⟨it, h.symm, hi, by rw [hrows, ← hr]; rfl⟩
+    | none =>
+      simp only [hp, Option.map_none] at h
+      have hio' : t.IterOKs s.st ∧ t.engine.kind = .iter := by
+        rcases hio with hh | hh
+        · rw [hp] at hh; cases hh
+        · exact hh
+      obtain ⟨it, a, b, c⟩ := payloadThrough_rows σ reg s hs t (hq.2 hio'.2) hreg.2 hio'.1 p h
+      exact ⟨it, a, b, by simpa [sem] using c⟩
+  | .select oid a1 a2 a3 a4 a5 a6 a7 t, hq, hreg, hio, p, h => by
+    unfold payloadThrough at h
+    rw [payloadOf_free s (Rel.select oid a1 a2 a3 a4 a5 a6 a7 t) hq.1] at h
+    simp only [Rel.oid] at h
+    cases hp : s.st.payload oid with
+    | some it =>
+      simp only [hp, Option.map_some, Option.some.injEq] at h
+      obtain ⟨hi, rows, hr, hrows⟩ := hs oid it hp
+      rw [hreg.1] at hr
+      injection hr with hr
+      exact ⟨it, h.symm, hi, by rw [hrows, ← hr]; rfl⟩
+    | none =>
+      simp only [hp, Option.map_none] at h
+      obtain ⟨it, a, b, c⟩ := payloadThrough_rows σ reg s hs t hq.2 hreg.2 hio p h
+      exact ⟨it, a, b, by simpa [sem] using c⟩
+
+theorem payloadThrough_isSome (s : ProcState) (t : Rel) (h : (s.payloadOf t).isSome = true) :
+    (payloadThrough s t).isSome = true := by
+  cases hp : s.payloadOf t with
+  | none => simp [hp] at h
+  | some p => rw [payloadThrough_some s p t hp]; rfl
+
+/-- **The payload a Materialization receives** (`matPayload`, iteration engines): whichever of the four sources is
+used - the processed target's own payload (found through payload-less wrappers), the engine's trivial payload for a
+statically trivial relation, or the `materialize` hook - it is an iteration payload that stands for exactly the rows of
+the direct evaluation of the target; the store stays right, nothing stored is replaced, new payloads sit on
+Materializations of the processed target only. -/
+theorem matPayload_spec (σ : Leaves) (reg : Nat → Option (List Row)) (oid : Nat) (name : String) (target x : Rel)
+    (persisted : Bool) (s1 : ProcState) (hk : x.engine.kind = .iter) (hkt : target.engine.kind = .iter)
+    (hio : x.IterOKs s1.st) (hwf : x.WF) (htr : x.Truthful σ) (hkd : keyDetermined σ x = true)
+    (hreg : x.RegOK σ reg) (hs : StoreOK σ reg s1.st) (hac : x.Acyclic) (hq : x.sqFree s1.sq)
+    (hsem : sem σ x = sem σ target) (hwft : target.WF) (htrt : target.Truthful σ)
+    (hflag : persisted = true → (payloadThrough s1 x).isSome = true) :
+    ∃ it s2, (matPayload σ (.mat oid name target) target x name persisted) s1 = (.ok (some (.iter it)), s2) ∧
+      ItOK it ∧ it.rows σ = .ok (sem σ target) ∧ StoreOK σ reg s2.st ∧ s2.sq = s1.sq ∧ s2.nextTemp = s1.nextTemp ∧
+      PayMono s1.st s2.st ∧ PayNew x s1.st s2.st ∧ PayKeep s1.st s2.st := by
+  unfold matPayload
+  cases persisted with
+  | true =>
+    have hsome := hflag rfl
+    cases hpt : payloadThrough s1 x with
+    | none => simp [hpt] at hsome
+    | some p =>
+      obtain ⟨it, hpit, hi, hrows⟩ := payloadThrough_rows σ reg s1 hs x hq hreg hio p hpt
+      subst hpit
+      refine ⟨it, s1, ?_, hi, by rw [hrows, hsem], hs, rfl, rfl, PayMono.refl _, PayNew.refl _ _, PayKeep.refl _⟩
+      simp [bind, ExceptT.bind, ExceptT.mk, ExceptT.bindCont, StateT.bind, get, getThe, MonadStateOf.get,
+        StateT.get, liftM, monadLift, MonadLift.monadLift, ExceptT.lift, pure, ExceptT.pure, StateT.pure,
+        Functor.map, StateT.map, hpt]
+  | false =>
+    by_cases hji : (Rel.mat oid name target).isJoinIdentity = true
+    · have hsemt : sem σ target = [Row.empty] :=
+        joinIdentity_sound σ target hwft htrt
+          (by simpa [Rel.isJoinIdentity, Rel.columns, Rel.maxRows, Rel.minRows] using hji)
+      refine ⟨.mapping [] [Row.empty], s1, ?_, by simp [ItOK], by rw [hsemt]; rfl, hs, rfl, rfl, PayMono.refl _,
+        PayNew.refl _ _, PayKeep.refl _⟩
+      simp [hji, hkt, trivialPayload, bind, ExceptT.bind, ExceptT.mk, ExceptT.bindCont, StateT.bind, get, getThe,
+        MonadStateOf.get, StateT.get, liftM, monadLift, MonadLift.monadLift, ExceptT.lift, pure, ExceptT.pure,
+        StateT.pure, Functor.map, StateT.map]
+    · by_cases hmz : (Rel.mat oid name target).maxRows = some 0
+      · have hsemt : sem σ target = [] :=
+          maxRows_zero_sound σ target hwft htrt (by simpa [Rel.maxRows] using hmz)
+        refine ⟨.mapping [] [], s1, ?_, by simp [ItOK], by rw [hsemt]; rfl, hs, rfl, rfl, PayMono.refl _,
+          PayNew.refl _ _, PayKeep.refl _⟩
+        simp [hji, hmz, hkt, trivialPayload, bind, ExceptT.bind, ExceptT.mk, ExceptT.bindCont, StateT.bind, get,
+          getThe, MonadStateOf.get, StateT.get, liftM, monadLift, MonadLift.monadLift, ExceptT.lift, pure,
+          ExceptT.pure, StateT.pure, Functor.map, StateT.map]
+      · obtain ⟨s2, hh, h2, hsq, hnt, hm2, hn2, hk2⟩ := hookMaterialize_iter σ reg x name s1 hk hio hwf htr hkd hreg hs hac
+        refine ⟨.seq (sem σ x), s2, ?_, trivial, by rw [← hsem]; rfl, h2, hsq, hnt, hm2, hn2, hk2⟩
+        simp [hji, hmz, hh, bind, ExceptT.bind, ExceptT.mk, ExceptT.bindCont, StateT.bind, get, getThe,
+          MonadStateOf.get, StateT.get, liftM, monadLift, MonadLift.monadLift, ExceptT.lift, pure, ExceptT.pure,
+          StateT.pure, Functor.map, StateT.map]
+
 /-- The payload a processed leaf or materialization of a plain tree holds stands for its rows. -/
 theorem cached_payload_rows (σ : Leaves) (reg : Nat → Option (List Row)) (s : ProcState) (e : Engine)
     (hs : StoreOK σ reg s.st) :
@@ -213,56 +426,19 @@ theorem process_plain_iter (σ : Leaves) (reg : Nat → Option (List Row)) (e : 
         have hmf : (Rel.mat oid name target).procFlag = true := rfl
         rw [hmf]
         have hek' : target.engine.kind = .iter := by rw [PlainIter.engine target hpt]; exact hek
-        by_cases hfl : target.procFlag = true
-        · -- the target's own payload is handed on
-          have hsome := P1.cached hfl
-          cases hpo : s1.payloadOf target with
-          | none => simp [hpo] at hsome
-          | some p =>
-            obtain ⟨it, hpit, hi, hr⟩ := cached_payload_rows σ reg s1 e P1.store target (by rw [P1.sq]; exact hq.2) hpt hreg.2 hfl p hpo
-            subst hpit
-            refine ⟨s1.attach oid (.iter it), ?_, hattach s1 it P1.store P1.sq P1.temp P1.mono P1.new P1.keep hi hr⟩
-            unfold processRec
-            simp [hfl, hnc, ih, Res.get, bind, ExceptT.bind, ExceptT.mk, ExceptT.bindCont, StateT.bind, get, getThe,
-              MonadStateOf.get, StateT.get, modify, modifyGet, MonadStateOf.modifyGet, StateT.modifyGet,
-              MonadState.modifyGet, liftM, monadLift, MonadLift.monadLift, ExceptT.lift, ExceptT.run, StateT.run,
-              pure, ExceptT.pure, StateT.pure, Functor.map, StateT.map,
-              payloadThrough_some s1 _ target hpo]
-        · by_cases hji : (Rel.mat oid name target).isJoinIdentity = true
-          · -- statically a join identity: the engine's trivial payload, no hook
-            have hsem : sem σ target = [Row.empty] :=
-              joinIdentity_sound σ target hwf htr
-                (by simpa [Rel.isJoinIdentity, Rel.columns, Rel.maxRows, Rel.minRows] using hji)
-            refine ⟨s1.attach oid (.iter (.mapping [] [Row.empty])), ?_,
-              hattach s1 _ P1.store P1.sq P1.temp P1.mono P1.new P1.keep (by simp [ItOK]) (by rw [hsem]; rfl)⟩
-            unfold processRec
-            simp [hfl, hnc, ih, hji, hek', trivialPayload, Res.get, bind, ExceptT.bind, ExceptT.mk, ExceptT.bindCont,
-              StateT.bind, get, getThe, MonadStateOf.get, StateT.get, modify, modifyGet, MonadStateOf.modifyGet,
-              StateT.modifyGet, MonadState.modifyGet, liftM, monadLift, MonadLift.monadLift, ExceptT.lift,
-              ExceptT.run, StateT.run, pure, ExceptT.pure, StateT.pure, Functor.map, StateT.map]
-          · by_cases hmz : (Rel.mat oid name target).maxRows = some 0
-            · -- statically empty
-              have hsem : sem σ target = [] :=
-                maxRows_zero_sound σ target hwf htr (by simpa [Rel.maxRows] using hmz)
-              refine ⟨s1.attach oid (.iter (.mapping [] [])), ?_,
-                hattach s1 _ P1.store P1.sq P1.temp P1.mono P1.new P1.keep (by simp [ItOK]) (by rw [hsem]; rfl)⟩
-              unfold processRec
-              simp [hfl, hnc, ih, hji, hmz, hek', trivialPayload, Res.get, bind, ExceptT.bind, ExceptT.mk,
-                ExceptT.bindCont, StateT.bind, get, getThe, MonadStateOf.get, StateT.get, modify, modifyGet,
-                MonadStateOf.modifyGet, StateT.modifyGet, MonadState.modifyGet, liftM, monadLift,
-                MonadLift.monadLift, ExceptT.lift, ExceptT.run, StateT.run, pure, ExceptT.pure, StateT.pure,
-                Functor.map, StateT.map]
-            · -- the hook evaluates the target
-              obtain ⟨s2, hh, h2, hsq, hnt, hm2, hn2, hk2⟩ := hookMaterialize_iter σ reg target name s1 hek'
-                (IterOKs.of_iterOK _ target hio) hwf htr hkd' hreg.2 P1.store hac.2
-              refine ⟨s2.attach oid (.iter (.seq (sem σ target))), ?_,
-                hattach s2 _ h2 (by rw [hsq, P1.sq]) (by rw [hnt, P1.temp]) (P1.mono.trans hm2)
-                  (PayNew.trans P1.new hn2 (fun _ h => h) (fun _ h => h)) (P1.keep.trans hk2) trivial rfl⟩
-              unfold processRec
-              simp [hfl, hnc, ih, hji, hmz, hh, Res.get, bind, ExceptT.bind, ExceptT.mk, ExceptT.bindCont, StateT.bind,
-                get, getThe, MonadStateOf.get, StateT.get, modify, modifyGet, MonadStateOf.modifyGet,
-                StateT.modifyGet, MonadState.modifyGet, liftM, monadLift, MonadLift.monadLift, ExceptT.lift,
-                ExceptT.run, StateT.run, pure, ExceptT.pure, StateT.pure, Functor.map, StateT.map]
+        have hflag : target.procFlag = true → (payloadThrough s1 target).isSome = true :=
+          fun hfl => payloadThrough_isSome s1 target (P1.cached hfl)
+        obtain ⟨it, s2, hmp, hi, hr, h2, hsq, hnt, hm2, hn2, hk2⟩ := matPayload_spec σ reg oid name target target
+          target.procFlag s1 hek' hek' (IterOKs.of_iterOK _ target hio) hwf htr hkd' hreg.2 P1.store hac.2
+          (by rw [P1.sq]; exact hq.2) rfl hwf htr hflag
+        refine ⟨s2.attach oid (.iter it), ?_,
+          hattach s2 it h2 (by rw [hsq, P1.sq]) (by rw [hnt, P1.temp]) (P1.mono.trans hm2)
+            (PayNew.trans P1.new hn2 (fun _ h => h) (fun _ h => h)) (P1.keep.trans hk2) hi hr⟩
+        unfold processRec
+        simp [hnc, ih, hmp, Res.get, bind, ExceptT.bind, ExceptT.mk, ExceptT.bindCont, StateT.bind, get, getThe,
+          MonadStateOf.get, StateT.get, modify, modifyGet, MonadStateOf.modifyGet, StateT.modifyGet,
+          MonadState.modifyGet, liftM, monadLift, MonadLift.monadLift, ExceptT.lift, ExceptT.run, StateT.run,
+          pure, ExceptT.pure, StateT.pure, Functor.map, StateT.map]
 
 theorem sqFree_empty : (t : Rel) → t.sqFree {}
   | .leaf .. => rfl
